@@ -1,1 +1,33 @@
-fn main() {}
+//! Conformance harness for the message-level properties C11 / C12 / C13 (zbus::message, socket reader).
+//! Usage: msg <command> [args...]; see each module.
+#![allow(unexpected_cfgs)] // model.rs is shared with the wire crate, which has a gvariant feature
+#[path = "../../wire/src/model.rs"]
+mod model;
+#[path = "../../wire/src/gen.rs"]
+mod gen;
+mod absmsg;
+mod compat;
+mod hostile;
+mod mk;
+
+fn main() {
+    // panics inside the code under test are data: keep them quiet, they are reported per case
+    std::panic::set_hook(Box::new(|_| {}));
+    let args: Vec<String> = std::env::args().collect();
+    if args.len() < 2 {
+        eprintln!("usage: msg <command> ...");
+        std::process::exit(2);
+    }
+    let rest = &args[2..];
+    match args[1].as_str() {
+        "obs-build" => mk::cmd_obs_build(rest),
+        "rand-build" => mk::cmd_rand_build(rest),
+        "obs-hostile" => hostile::cmd_obs_hostile(rest),
+        "rand-hostile" => hostile::cmd_rand_hostile(rest),
+        "obs-compat" => compat::cmd_obs_compat(rest),
+        other => {
+            eprintln!("unknown command {other}");
+            std::process::exit(2);
+        }
+    }
+}
